@@ -165,7 +165,7 @@ func run(c *mon.Ctx) {
 			}
 		}
 	})
-	c.Stream("random-pairs", c.N(2000, 200000), func(i int, r *gen.Rand) {
+	c.Stream("random-pairs", c.N(2000, 6000000), func(i int, r *gen.Rand) {
 		for k := 0; k < 500; k++ {
 			p, q := r.Uint64()&maxV, r.Uint64()&maxV
 			switch r.Intn(6) {
